@@ -28,6 +28,7 @@ func (w *Writer) Emit(v interface{}) {
 	}
 	w.w.Write(bz)
 	w.w.WriteByte('\n')
+	w.w.Flush() // every event reaches the file at once: a trace cut short (crash, timeout) is still a trace
 	w.N++
 }
 
